@@ -27,6 +27,9 @@
 #include "hwloc/bitmap.h"
 #include "private/components.h"
 #include "private/misc.h"
+#ifdef HWLOC_VERIF
+#include "private/verif.h"
+#endif
 
 #include <sys/types.h>
 #ifdef HAVE_UNISTD_H
